@@ -53,6 +53,7 @@ package round
 // the round handed back belongs to the same session and is one of the rounds it announced (every implementation
 // ensures result0.Number() <= its Helper's FinalRoundNumber and hands the Helper on; FinalRoundNumber() reads that field)
 //@   ensures result1 == nil ==> (result0.Number() <= self.(Session).FinalRoundNumber() && result0.FinalRoundNumber() == self.(Session).FinalRoundNumber())
+//@   assumes A-GETTER: Session.FinalRoundNumber() returns Helper.info.FinalRoundNumber (one-line getter of a field written only by NewSession) and the round handed back by Finalize carries the same Helper; the implementations prove result0.Number() <= Helper.info.FinalRoundNumber
 
 //@ interface Round method VerifyMessage
 //@   modifies shared
